@@ -62,6 +62,7 @@ type gmod struct {
 	requires      []int   // require() targets (CJS files only)
 	cjsAssign     bool    // module.exports = {...} instead of exports.x =
 	cjsEsm        bool    // exports.__esModule = true; exports.default = ...
+	cjsEsmDefine  bool    // ... the marker set with Object.defineProperty (not enumerable)
 	throws        bool
 	json          string
 	aliasTwo      bool // export {v as p, v as q}: one binding under two names
@@ -725,7 +726,8 @@ func genGraph1(r *Rng, o genOpts) *ggraph {
 			continue
 		case modCJS:
 			md.cjsAssign = r.Chance(30) && cyc == 0 && chain == 0
-			md.cjsEsm = !md.cjsAssign && r.Chance(15) && cyc == 0 && chain == 0 // a star-exported __esModule marker shows up as a key in the bundle only
+			md.cjsEsmDefine = r.Bool()
+			md.cjsEsm = !md.cjsAssign && r.Chance(25) && cyc == 0 && chain == 0 // a star-exported __esModule marker shows up as a key in the bundle only
 		}
 		for _, nm := range namePool {
 			if r.Chance(40) {
@@ -752,6 +754,10 @@ func genGraph1(r *Rng, o genOpts) *ggraph {
 		if ma.kind == modCJS {
 			if g.mods[b].kind == modESM {
 				ma.dyn = append(ma.dyn, b) // require(esm) is not loadable natively
+			} else if g.mods[b].kind == modCJS && !g.mods[b].cjsEsm && !g.mods[b].cjsAssign && r.Chance(25) {
+				// import() of CommonJS from a file that is not ESM-typed; a target with the __esModule
+				// marker would get Babel interop there (recorded finding G), native node never does
+				ma.dyn = append(ma.dyn, b)
 			} else {
 				ma.requires = append(ma.requires, b)
 			}
@@ -765,6 +771,11 @@ func genGraph1(r *Rng, o genOpts) *ggraph {
 			ma.stars = append(ma.stars, b) // export * from a CommonJS file: names resolved at run time
 		case tk == modESM && r.Chance(12) && !o.allESM:
 			ma.dyn = append(ma.dyn, b)
+		case tk == modCJS && !g.mods[b].cjsAssign && r.Chance(30) && !o.allESM: // (node's lexer does not see the names of module.exports = {...})
+			// import() of CommonJS from an ESM-typed file (node mode: default is module.exports), next to
+			// a static import of the same file as control
+			ma.dyn = append(ma.dyn, b)
+			ma.imports = append(ma.imports, gimport{target: b, form: "side"})
 		default:
 			ma.imports = append(ma.imports, gimport{target: b, form: "side"})
 		}
@@ -916,7 +927,7 @@ func genGraph1(r *Rng, o genOpts) *ggraph {
 				var ni gimport
 				switch r.Intn(4) {
 				case 0:
-					if tk == modJSON || (tk == modCJS && g.mods[im.target].cjsAssign) {
+					if tk == modJSON || (tk == modCJS && (g.mods[im.target].cjsAssign || (g.mods[im.target].cjsEsm && g.mods[im.target].cjsEsmDefine))) {
 						continue // JSON has only a default export; node's lexer does not see the names of module.exports = {...}
 					}
 					ni = gimport{target: im.target, form: "ns", local: local}
@@ -1069,6 +1080,14 @@ globalThis.$D = function (v, d) {
   }
   return "{" + o.join(",") + "}";
 };
+globalThis.$NS = function (ns) {
+  var ks = Object.keys(ns).filter(function (k) { return k !== "__esModule"; }).sort(), o = [];
+  for (var i = 0; i < ks.length; i++) {
+    var val; try { val = $D(ns[ks[i]], 1); } catch (e) { val = "!" + (e && e.name); }
+    o.push(ks[i] + ":" + val);
+  }
+  return "{" + o.join(",") + "}";
+};
 globalThis.$P = function (tag, fn) {
   try { $L.push(tag + "=" + $D(fn())); } catch (e) { $L.push(tag + "!" + (e && e.name)); }
 };
@@ -1199,7 +1218,7 @@ func (g *ggraph) renderESM(md *gmod) string {
 	fmt.Fprintf(&sb, "$bump%d();\n", id)
 	for _, t := range md.dyn {
 		p := relImport(md.path, g.mods[t].path)
-		fmt.Fprintf(&sb, "$Q = $Q.then(() => import(%q%s)).then(ns => { $P(\"%d:dyn%d\", () => ns); }, e => { $L.push(\"%d:dyn%d!\" + (e && e.name)); });\n", p, dynAttr(g, t), id, t, id, t)
+		fmt.Fprintf(&sb, "$Q = $Q.then(() => import(%q%s)).then(ns => { $P(\"%d:dyn%d\", () => $NS(ns)); }, e => { $L.push(\"%d:dyn%d!\" + (e && e.name)); });\n", p, dynAttr(g, t), id, t, id, t)
 	}
 	// late phase
 	fmt.Fprintf(&sb, "$late.push(() => {\n")
@@ -1310,7 +1329,11 @@ func (g *ggraph) renderCJS(md *gmod) string {
 	sb.WriteString("\"use strict\";\n")
 	fmt.Fprintf(&sb, "$L.push(\"%d:start\");\n", id)
 	if md.cjsEsm {
-		sb.WriteString("exports.__esModule = true;\n")
+		if md.cjsEsmDefine {
+			sb.WriteString("Object.defineProperty(exports, \"__esModule\", { value: true });\n")
+		} else {
+			sb.WriteString("exports.__esModule = true;\n")
+		}
 		fmt.Fprintf(&sb, "exports.default = \"%d.cjsdefault\";\n", id)
 	}
 	half := len(md.locals) / 2
@@ -1345,7 +1368,7 @@ func (g *ggraph) renderCJS(md *gmod) string {
 	}
 	for _, t := range md.dyn {
 		p := relImport(md.path, g.mods[t].path)
-		fmt.Fprintf(&sb, "$Q = $Q.then(() => import(%q%s)).then(ns => { $P(\"%d:dyn%d\", () => ns); }, e => { $L.push(\"%d:dyn%d!\" + (e && e.name)); });\n", p, dynAttr(g, t), id, t, id, t)
+		fmt.Fprintf(&sb, "$Q = $Q.then(() => import(%q%s)).then(ns => { $P(\"%d:dyn%d\", () => $NS(ns)); }, e => { $L.push(\"%d:dyn%d!\" + (e && e.name)); });\n", p, dynAttr(g, t), id, t, id, t)
 	}
 	fmt.Fprintf(&sb, "$late.push(() => {\n")
 	for k, t := range md.requires {
